@@ -41,7 +41,8 @@ def lastOf : Final → Pager.Attempt
 
 /-- The page loop's view of one execution-core run: one entry per request sent. (A run that sent no
 request at all - empty plan, no pool had a connection - is a failure the pager model has no request-less
-transition for; `attemptsOfTrace` then still yields one entry: see `requests_of_trace`.) -/
+transition for; `attemptsOfTrace` then still yields one entry: see `Props.C07.every_fetch_sends_a_request`
+for the hypothesis under which every fetch sends one.) -/
 def attemptsOfTrace (tr : Trace) : List Pager.Attempt :=
   List.replicate (tr.attempts.length - 1) .retry ++ [lastOf tr.final]
 
@@ -95,13 +96,16 @@ def Fetch.coordinator (f : Fetch) : Option Nat :=
 /-- The page fetches of one iteration: page `j` has the load-balancing plan `lb_j` (whatever the policy
 returned: a fresh plan per page, pager.rs 338-339) and the scripted outcomes `outs_j` of its attempts. The
 iteration goes on to the next page only after a completed fetch, whose coordinator heads the next plan.
-All pools have connections. -/
+`av_j node` says whether the pool of `node` yields a connection at its 1st, 2nd, ... `get_connection()` call
+during fetch `j` (C06's call-indexed targets): a node whose pool is empty - e.g. the previous coordinator,
+killed in the meantime - is skipped without a request (execution.rs 536-547), and the fetch goes on to the
+next target of the plan WITH THE SAME paging state. -/
 def fetches (pol : Policy) (idem : Bool) (cl : Consistency) :
-    Option Nat → List (List Nat × (Nat → Outcome)) → List Fetch
+    Option Nat → List (List Nat × (Nat → Target) × (Nat → Outcome)) → List Fetch
   | _, [] => []
-  | coord, (lb, outs) :: rest =>
+  | coord, (lb, av, outs) :: rest =>
     let plan := pagePlan coord lb
-    let f : Fetch := ⟨plan, Exec.run pol idem cl (plan.map fun _ => Target.always) outs⟩
+    let f : Fetch := ⟨plan, Exec.run pol idem cl (plan.map av) outs⟩
     f :: (match f.coordinator with
           | some c => fetches pol idem cl (some c) rest
           | none => [])
@@ -109,7 +113,8 @@ def fetches (pol : Policy) (idem : Bool) (cl : Consistency) :
 /-- The fetches of the harness's `n`-node cluster family: default retry policy, load-balancing plan
 `0 .. n-1` for every page (the real policy's order is random; nothing below depends on it). -/
 def clusterFetches (n : Nat) (idem : Bool) (pageFaultLetters : List (List Char)) : List Fetch :=
-  fetches .default idem .localQuorum none (pageFaultLetters.map fun cs => (List.range n, outcomesOf cs))
+  fetches .default idem .localQuorum none
+    (pageFaultLetters.map fun cs => (List.range n, (fun _ => Target.always), outcomesOf cs))
 
 def clusterAttempts (n : Nat) (idem : Bool) (pageFaultLetters : List (List Char)) : List Pager.Attempt :=
   pageFaults ((clusterFetches n idem pageFaultLetters).map Fetch.trace)
